@@ -858,14 +858,19 @@ fn run_duration(fm: &FragMovie, r: &Run, i: usize) -> u32 {
 
 /// Serialise the fragments placed at absolute position `origin`; returns bytes and the
 /// per-track expectations (offsets absolute, i.e. including `origin`).
-fn build_fragments(fm: &FragMovie, origin: u64, xf: &dyn Fn(&mut BoxT)) -> (Vec<u8>, Vec<Vec<Expect>>) {
+fn build_fragments(fm: &FragMovie, origin: u64, xf: &dyn Fn(&mut BoxT)) -> (Vec<u8>, Vec<Vec<Expect>>, Vec<BoxT>) {
     let mut out: Vec<u8> = Vec::new();
+    // the same top-level boxes as trees (for the field map of the single-stream file)
+    let mut trees: Vec<BoxT> = Vec::new();
     let mut expect: Vec<Vec<Expect>> = fm.movie.tracks.iter().map(|_| Vec::new()).collect();
     if fm.styp {
         let s = serialize_one(&enc_ftyp(&FtypF { major: *b"msdh", minor: 0, brands: vec![*b"msdh", *b"msix"] }));
         let mut s2 = s.clone();
         s2[4..8].copy_from_slice(b"styp");
         out.extend_from_slice(&s2);
+        let mut styp = enc_ftyp(&FtypF { major: *b"msdh", minor: 0, brands: vec![*b"msdh", *b"msix"] });
+        styp.typ = *b"styp";
+        trees.push(styp);
     }
     for (fi, frag) in fm.fragments.iter().enumerate() {
         let moof_start = origin + out.len() as u64;
@@ -923,6 +928,19 @@ fn build_fragments(fm: &FragMovie, origin: u64, xf: &dyn Fn(&mut BoxT)) -> (Vec<
                 };
                 if !(r.no_trun && r.samples.is_empty()) {
                     traf.push(enc_trun(&tr));
+                    // hostile-corpus only (C06-C08): a second run in the same track fragment whose
+                    // optional columns are the complement of the first one's (sizes kept). The
+                    // format allows several runs per track fragment; whatever the reader makes of
+                    // them, columns of different runs must not be indexed with each other's counts.
+                    if multi_trun_allowed() && !r.samples.is_empty() && (fi + ri) % 2 == 0 {
+                        let second = TrunF {
+                            durations: if tr.durations.is_some() { None } else { Some(r.samples.iter().map(|s| s.delta).collect()) },
+                            cts: if tr.cts.is_some() { None } else { Some(r.samples.iter().map(|s| s.cts as u32).collect()) },
+                            sflags: if tr.sflags.is_some() { None } else { Some(r.samples.iter().map(|_| 0x0101_0000).collect()) },
+                            ..tr.clone()
+                        };
+                        traf.push(enc_trun(&second));
+                    }
                 }
                 moof.push(traf);
             }
@@ -944,6 +962,7 @@ fn build_fragments(fm: &FragMovie, origin: u64, xf: &dyn Fn(&mut BoxT)) -> (Vec<
         let moof = make(&data_starts, mdat_end);
         assert_eq!(moof.size(), moof_size);
         out.extend_from_slice(&serialize_one(&moof));
+        trees.push(moof);
         let mut mdat = BoxT::new(b"mdat");
         let mut pb = PB::new();
         for (ri, r) in frag.runs.iter().enumerate() {
@@ -955,6 +974,7 @@ fn build_fragments(fm: &FragMovie, origin: u64, xf: &dyn Fn(&mut BoxT)) -> (Vec<
         mdat.data(pb);
         mdat.large = mdat_large;
         out.extend_from_slice(&serialize_one(&mdat));
+        trees.push(mdat);
         // expectations
         for (ri, r) in frag.runs.iter().enumerate() {
             let mut off = data_starts[ri];
@@ -975,11 +995,25 @@ fn build_fragments(fm: &FragMovie, origin: u64, xf: &dyn Fn(&mut BoxT)) -> (Vec<
             }
         }
     }
-    (out, expect)
+    (out, expect, trees)
 }
 
 thread_local! {
     static HYBRID: std::cell::Cell<bool> = std::cell::Cell::new(false);
+}
+
+thread_local! {
+    static MULTI_TRUN: std::cell::Cell<bool> = std::cell::Cell::new(false);
+}
+
+/// Several runs per track fragment: built only for the hostile corpus (the expectations of
+/// `build_fragments` describe single-run track fragments).
+pub fn allow_multi_trun(on: bool) {
+    MULTI_TRUN.with(|h| h.set(on));
+}
+
+fn multi_trun_allowed() -> bool {
+    MULTI_TRUN.with(|h| h.get())
 }
 
 /// Hybrid movies (a movie box with samples of its own AND fragments) are built only on request
@@ -1043,10 +1077,15 @@ pub fn build_fragmented_x(fm: &FragMovie, init_xf: &dyn Fn(&mut Vec<BoxT>), moof
     init_xf(&mut init_top);
     let init_ser = serialize(&init_top);
     let init = init_ser.bytes.clone();
-    let (frag_whole, expect_whole) = build_fragments(fm, init.len() as u64, moof_xf);
-    let (segment, expect_segment) = build_fragments(fm, 0, moof_xf);
-    let mut whole = init_ser;
-    whole.bytes.extend_from_slice(&frag_whole);
+    let (frag_whole, expect_whole, frag_trees) = build_fragments(fm, init.len() as u64, moof_xf);
+    let (segment, expect_segment, _) = build_fragments(fm, 0, moof_xf);
+    // the single stream is serialised once more as one forest, so that its field and box maps
+    // cover the movie fragments too (they used to describe the initialisation part only, and
+    // every field-directed mutation of a single-stream fragmented file missed the fragments)
+    let mut all = init_top.clone();
+    all.extend(frag_trees);
+    let whole = serialize(&all);
+    assert!(whole.bytes.len() == init.len() + frag_whole.len() && whole.bytes[init.len()..] == frag_whole[..] && whole.bytes[..init.len()] == init[..], "single-stream forest differs from init + fragments");
     BuiltFrag { whole, init, segment, expect_whole, expect_segment }
 }
 
@@ -1061,8 +1100,11 @@ pub fn gen_frag_movie(rng: &mut Rng, max_frags: u32, max_tracks: u32, max_run: u
         }
         movie.tracks.push(t);
     }
-    let common = (rng.below(5000) as u32, 0u32, 0u32);
-    let trex: Vec<(u32, u32, u32)> = (0..nt).map(|_| if same_trex { common } else { (rng.below(5000) as u32, rng.below(100) as u32, 0) }).collect();
+    // one default duration in six is 0 ("nothing declared anywhere" when the run and the tfhd
+    // are silent too: the sample durations are then 0, whatever the next fragment's decode time)
+    let dur0 = |d: u64| if d % 6 == 0 { 0u32 } else { d as u32 };
+    let common = (dur0(rng.below(5000)), 0u32, 0u32);
+    let trex: Vec<(u32, u32, u32)> = (0..nt).map(|_| if same_trex { common } else { (dur0(rng.below(5000)), rng.below(100) as u32, 0) }).collect();
     let nf = 1 + rng.below(max_frags as u64) as usize;
     let mut next_time: Vec<u64> = vec![0; nt];
     let mut fragments = Vec::new();
